@@ -1154,6 +1154,11 @@ class Interp:
             recv = None
             for _s, b in self.expr(f.value, s, fork=False):
                 recv = b
+            if isinstance(recv, Obj):
+                held = recv.attrs.get(f.attr)
+                if isinstance(held, Sym) and held.label.startswith('boundmethod:') and isinstance(held.attrs.get('fn'), M.FunctionInfo):
+                    self._receiver = held.attrs['recv']          # an attribute that holds a bound method of another object
+                    return held.attrs['fn'].node, True, held.attrs['fn']
             if isinstance(recv, Obj) and isinstance(recv.cls, M.ClassInfo) and f.attr not in recv.attrs:
                 m = self.model.find_method(recv.cls, f.attr)
                 if m is not None and not any(d == 'staticmethod' or (d == 'property' and not getattr(self, '_property_ok', False))
@@ -1620,7 +1625,13 @@ class Interp:
                 v = m.class_const(base.cls, attr)
                 if M.is_unknown(v):
                     v = self._class_level_object(base.cls, attr)
-                    if v is TOP and base.attrs.get('__closed') and self.precise_exc and m.find_attr_class(base.cls, attr) is None:
+                    if v is TOP and self.heap:
+                        fn_ = m.find_method(base.cls, attr)
+                        if fn_ is not None and fn_.cls is not None and attr not in fn_.cls.properties:
+                            # a method taken as a value (self.keys = top.keys): remembers its receiver
+                            return Sym('boundmethod:%s' % fn_.fullname, truthy=True, attrs={'recv': base, 'fn': fn_})
+                    if v is TOP and base.attrs.get('__closed') and self.precise_exc and m.find_attr_class(base.cls, attr) is None \
+                       and not (isinstance(base.attrs.get('__dict'), dict) and hasattr(dict, attr)):
                         s.env['__exc'] = 'AttributeError'     # an object built by its own __init__: it has no such attribute
                     return v
                 return v
@@ -2386,6 +2397,9 @@ class Interp:
 
     def _builtin_method(self, recv, meth, args, kwargs):
         if isinstance(recv, M._StringLetters):
+            if meth == 'replace' and len(args) >= 2 and isinstance(args[0], str) and len(args[0]) == 1 and not args[0].isalpha() \
+               and not isinstance(args[0], M._StringLetters):
+                return recv            # removing a character that is not a letter from the set of all letters
             return TOP
         if isinstance(recv, _REAL_TYPES):
             # methods of library objects built from constants (compiled patterns, string templates): the library's own semantics
